@@ -113,10 +113,13 @@ where
         let result = result_and_state.result;
         let mut state = result_and_state.state;
         if !self.disable_nonce_check {
+            vpoint!(SCHED, "C_Nonce");
             match self.state.basic_ref(tx_env.caller) {
                 Ok(info) => {
                     // A non-existent account has Ethereum's default nonce of zero.
                     let expect = info.map_or(0, |info| info.nonce);
+                    vemit!(SCHED, "C_Nonce", "tx" => txid, "tx_nonce" => tx_env.nonce,
+                        "state_nonce" => expect);
                     if tx_env.nonce == u64::MAX && expect == u64::MAX {
                         // Leave the speculative result uncommitted and let sequential execution
                         // classify the nonce overflow as an invalid transaction skip.
@@ -146,14 +149,22 @@ where
                 !state.contains_key(&self.beneficiary),
                 "a deferred reward must not accompany a beneficiary state write",
             );
+            vpoint!(SCHED, "C_Reward");
             let info = self
                 .state
                 .basic_ref(self.beneficiary)
                 .map_err(|error| GrevmError { txid, error: EVMError::Database(error) })?;
+            vemit!(SCHED, "C_Reward", "tx" => txid, "reward" => reward.verif_amount(),
+                "before" => crate::verif::fmt::info(info.as_ref()));
             let mut account = Account::from(reward.apply_to(info));
             account.mark_touch();
             let _ = state.insert(self.beneficiary, account);
         }
+        vpoint!(SCHED, "C_Apply");
+        #[cfg(grevm_verif)]
+        let digest = crate::verif::fmt::state_digest(&state);
+        vemit!(SCHED, "C_Apply", "tx" => txid, "delta" => digest,
+            "result" => crate::verif::fmt::result_digest(&result));
         self.state.commit(state);
         Ok(CommitOutcome::Committed(output.push(result)))
     }
